@@ -49,12 +49,15 @@ TRUSTED = [
 ]
 ASSUMPTIONS = [
     "values are trees over None/bool/int/float/str/bytes/PosixPath/File/TextFile/Directory/list/tuple/set/"
-    "frozenset/dict; lazy fields, StateArray, attrs.NOTHING, numpy and user classes are outside the model",
+    "frozenset/dict and instances of the registered (sub)classes of those (str/bytes/int/float/list/tuple/set/"
+    "frozenset/dict/PosixPath subclasses, a str-Enum, numpy.str_/int64/float64 — harness/lib/translate_tables.py "
+    "registered()); lazy fields, StateArray, attrs.NOTHING, numpy arrays and other user classes are outside the model",
     "types are the grammar of Model.Typing.ty with unions normalised as typing.Union does (flat, distinct, >= 2 arms)",
 ]
 RULE = ("(type, value) pairs: type from the grammar (depth <= 3: scalars, Any, None, File/TextFile/Directory, "
         "list/tuple/tuple[..,...]/dict/set/frozenset/Union/Optional/MultiInputObj nestings), value drawn from the "
-        "type, from a sibling type or from an unrelated type; distinct = distinct (type, value); non-trivial = "
+        "type, from a sibling type or from an unrelated type, about one value node in eight an instance of a "
+        "registered subclass instead of the exact builtin; distinct = distinct (type, value); non-trivial = "
         "the type is not Any and the implementation either rejected the value or stored something different "
         "from the input")
 
@@ -306,8 +309,28 @@ PATHS = ["a", "x/y.txt", "$R/a.txt", "$R/b.dat", "$R/d", "$R/missing.txt", "."]
 FILES = {"File": ["$R/a.txt", "$R/b.dat", "$R/c.txt"], "TextFile": ["$R/a.txt", "$R/c.txt"], "Directory": ["$R/d", "$R"]}
 
 
+SUB_OF = {"str": ["StrSub", "Colour", "numpy.str_"], "bytes": ["BytesSub"], "int": ["IntSub", "numpy.int64"],
+          "float": ["FloatSub", "numpy.float64"], "list": ["ListSub"], "tuple": ["TupleSub"], "set": ["SetSub"],
+          "frozenset": ["FrozensetSub"], "dict": ["DictSub"], "path": ["PathSub"]}
+P_SUB = 0.12          # share of values that are instances of a registered subclass instead of the exact builtin
+
+
+def maybe_sub(rng, v):
+    """Now and then replace a value of an exact builtin class by an instance of a registered subclass of it."""
+    names = SUB_OF.get(v[0])
+    if not names or rng.random() >= P_SUB:
+        return v
+    reg = {n for n, _, _ in translate_tables.registered()}
+    name = rng.choice([n for n in names if n in reg])
+    if name == "Colour":
+        return ("sub", "Colour", ("str", rng.choice(["red", "a-b"])))
+    return ("sub", name, v)
+
+
 def v_hashable(v):
     k = v[0]
+    if k == "sub":
+        return v_hashable(v[2])
     if k in ("list", "dict", "set"):
         return False
     if k == "tuple":
@@ -321,15 +344,15 @@ def gen_scalar(rng, name):
     if name == "bool":
         return ("bool", rng.random() < 0.5)
     if name == "int":
-        return ("int", rng.choice(INTS)) if rng.random() < 0.85 else ("bool", rng.random() < 0.5)
+        return maybe_sub(rng, ("int", rng.choice(INTS))) if rng.random() < 0.85 else ("bool", rng.random() < 0.5)
     if name == "float":
-        return ("float", rng.choice(FLOATS))
+        return maybe_sub(rng, ("float", rng.choice(FLOATS)))
     if name == "str":
-        return ("str", rng.choice(STRS))
+        return maybe_sub(rng, ("str", rng.choice(STRS)))
     if name == "bytes":
-        return ("bytes", rng.choice(BYTES))
+        return maybe_sub(rng, ("bytes", rng.choice(BYTES)))
     if name == "Path":
-        return ("path", rng.choice(PATHS))
+        return maybe_sub(rng, ("path", rng.choice(PATHS)))
     if name == "File":
         f = rng.choice(["File", "File", "TextFile"])
         return ("file", f, rng.choice(FILES[f]))
@@ -345,6 +368,13 @@ def gen_value(rng, t, depth=3):
     k = t[0]
     if k == "base":
         return gen_scalar(rng, t[1])
+    if k == "union":
+        return gen_value(rng, rng.choice(t[1]), depth)
+    return maybe_sub(rng, gen_container(rng, t, depth))
+
+
+def gen_container(rng, t, depth):
+    k = t[0]
     n = rng.choice([0, 1, 1, 2, 2, 3])
     if k in ("list", "multi"):
         return ("list", tuple(gen_value(rng, t[1], depth - 1) for _ in range(n)))
@@ -366,14 +396,14 @@ def gen_value(rng, t, depth=3):
             if v_hashable(a):
                 items.append((a, gen_value(rng, t[2], depth - 1)))
         return ("dict", tuple(items))
-    if k == "union":
-        return gen_value(rng, rng.choice(t[1]), depth)
     raise ValueError(t)
 
 
 def v_norm(v):
     """JSON round trip: lists -> tuples"""
     k = v[0]
+    if k == "sub":
+        return ("sub", v[1], v_norm(v[2]))
     if k in ("list", "tuple", "set", "frozenset"):
         return (k, tuple(v_norm(x) for x in v[1]))
     if k == "dict":
@@ -386,6 +416,9 @@ def v_py(v, world):
     from fileformats.generic import File, Directory
     from fileformats.text import TextFile
     k = v[0]
+    if k == "sub":
+        cls = {n: c for n, c, _ in translate_tables.registered()}[v[1]]
+        return cls(v_py(v[2], world))
     if k == "none":
         return None
     if k in ("bool", "int", "float"):
@@ -415,8 +448,13 @@ class Unencodable(Exception):
     pass
 
 
+def _registry():
+    return {c: (i, shape) for i, (_, c, shape) in enumerate(translate_tables.registered())}
+
+
 def enc(x):
-    """Python object -> Gallina `val` (sets in their actual iteration order). Exact types only."""
+    """Python object -> Gallina `val` (sets in their actual iteration order). The exact builtin classes and the
+    registered (sub)classes only; a registered class is encoded as the shape it behaves like plus its tag."""
     from fileformats.generic import File, Directory
     from fileformats.text import TextFile
     t = type(x)
@@ -424,36 +462,67 @@ def enc(x):
         return "VNone"
     if t is bool:
         return "(VBool %s)" % coqio.boolean(x)
-    if t is int:
-        return "(VInt %s)" % coqio.z(x)
-    if t is float:
-        if x != x or x in (float("inf"), float("-inf")) or x != int(x) or abs(x) >= 1e15:
-            raise Unencodable("float %r" % x)
-        return "(VFloat %s)" % coqio.z(int(x))
-    if t is str:
-        return "(VStr %s)" % coqio.string(x)
-    if t is bytes:
-        return "(VBytes %s)" % coqio.string(x)
-    if isinstance(x, PurePath) and t.__name__ == "PosixPath":
-        return "(VPath %s)" % coqio.string(str(x))
     if t in (File, TextFile, Directory):
         f = {File: "FFile", TextFile: "FText", Directory: "FDir"}[t]
         return "(VFile %s %s)" % (f, coqio.string(str(x.fspath)))
-    if t is list:
-        return "(VList %s)" % coqio.lst([enc(i) for i in x])
-    if t is tuple:
-        return "(VTuple %s)" % coqio.lst([enc(i) for i in x])
-    if t is set:
-        return "(VSet false %s)" % coqio.lst([enc(i) for i in x])
-    if t is frozenset:
-        return "(VSet true %s)" % coqio.lst([enc(i) for i in x])
-    if t is dict:
-        return "(VDict %s)" % coqio.lst([coqio.pair(enc(a), enc(b)) for a, b in x.items()])
+    shapes = {int: "CInt", float: "CFloat", str: "CStr", bytes: "CBytes", list: "CList", tuple: "CTuple", set: "CSet",
+              frozenset: "CFrozenset", dict: "CDict"}
+    if t in shapes:
+        tag, shape = "None", shapes[t]
+    elif isinstance(x, PurePath) and t.__name__ == "PosixPath":
+        tag, shape = "None", "CPath"
+    elif t in _registry():
+        i, shape = _registry()[t]
+        tag = "(Some %d%%nat)" % i
+    else:
+        raise Unencodable("%s %r" % (t.__name__, x))
+    if shape == "CInt":
+        return "(VInt %s %s)" % (tag, coqio.z(int(x)))
+    if shape == "CFloat":
+        f = float(x)
+        if f != f or f in (float("inf"), float("-inf")) or f != int(f) or abs(f) >= 1e15:
+            raise Unencodable("float %r" % x)
+        return "(VFloat %s %s)" % (tag, coqio.z(int(f)))
+    if shape == "CStr":
+        return "(VStr %s %s)" % (tag, coqio.string(str.encode(x, "utf-8")))
+    if shape == "CBytes":
+        return "(VBytes %s %s)" % (tag, coqio.string(bytes(x)))
+    if shape == "CPath":
+        return "(VPath %s %s)" % (tag, coqio.string(os.fspath(x)))
+    if shape == "CList":
+        return "(VList %s %s)" % (tag, coqio.lst([enc(i) for i in x]))
+    if shape == "CTuple":
+        return "(VTuple %s %s)" % (tag, coqio.lst([enc(i) for i in x]))
+    if shape == "CSet":
+        return "(VSet %s false %s)" % (tag, coqio.lst([enc(i) for i in x]))
+    if shape == "CFrozenset":
+        return "(VSet %s true %s)" % (tag, coqio.lst([enc(i) for i in x]))
+    if shape == "CDict":
+        return "(VDict %s %s)" % (tag, coqio.lst([coqio.pair(enc(a), enc(b)) for a, b in dict.items(x)]))
     raise Unencodable("%s %r" % (t.__name__, x))
 
 
+def _show(x):
+    """repr, with instances of registered subclasses made visible (repr(StrSub('a')) is just 'a')."""
+    t = type(x)
+    if t in (list, tuple, set, frozenset):
+        inner = ", ".join(_show(i) for i in x)
+        if t is tuple:
+            return "(%s%s)" % (inner, "," if len(x) == 1 else "")
+        if t is list:
+            return "[%s]" % inner
+        return ("{%s}" % inner if x else "set()") if t is set else "frozenset({%s})" % inner
+    if t is dict:
+        return "{%s}" % ", ".join("%s: %s" % (_show(a), _show(b)) for a, b in x.items())
+    if t in _registry() and t.__name__ not in repr(x):
+        base = {"CStr": str, "CBytes": bytes, "CInt": int, "CFloat": float, "CList": list, "CTuple": tuple, "CSet": set,
+                "CFrozenset": frozenset, "CDict": dict}.get(_registry()[t][1])
+        return "%s(%s)" % (t.__name__, _show(base(x)) if base else repr(x))
+    return repr(x)
+
+
 def show(x, world):
-    return world.collapse(repr(x))
+    return world.collapse(_show(x))
 
 
 def observe(fn):
@@ -527,7 +596,31 @@ SEEDS = [
     (("base", "bool"), ("int", 2)),
     (("base", "File"), ("str", "")),
     (("base", "File"), ("bytes", "")),
+    # instances of subclasses of the builtins (and numpy scalars): isinstance, not type(x) is
+    (("multi", ("base", "str")), ("sub", "StrSub", ("str", "abc"))),
+    (("multi", ("base", "str")), ("sub", "Colour", ("str", "red"))),
+    (("multi", ("base", "Path")), ("sub", "StrSub", ("str", "a b"))),
+    (("union", (("multi", ("base", "str")), ("base", "None"))), ("sub", "StrSub", ("str", "ab"))),
+    (("multi", ("base", "bytes")), ("sub", "BytesSub", ("bytes", "ab"))),
+    (("multi", ("base", "int")), ("sub", "BytesSub", ("bytes", "ab"))),
+    (("set", False, ("base", "str")), ("sub", "StrSub", ("str", "abc"))),
+    (("list", ("base", "str")), ("sub", "StrSub", ("str", "abc"))),
+    (("list", ("base", "float")), ("sub", "ListSub", ("list", (("int", 1), ("int", 2))))),
+    (("tuplevar", ("base", "int")), ("sub", "TupleSub", ("tuple", (("int", 1),)))),
+    (("dict", ("base", "str"), ("base", "float")), ("sub", "DictSub", ("dict", ((("str", "a"), ("int", 1)),)))),
+    (("set", False, ("base", "int")), ("sub", "SetSub", ("set", (("int", 1),)))),
+    (("base", "str"), ("sub", "PathSub", ("path", "a"))),
+    (("base", "Path"), ("sub", "PathSub", ("path", "x/y.txt"))),
+    (("base", "float"), ("sub", "IntSub", ("int", 3))),
 ]
+if any(n == "numpy.str_" for n, _, _ in translate_tables.registered()):
+    SEEDS += [
+        (("multi", ("base", "str")), ("sub", "numpy.str_", ("str", "x/y.txt"))),
+        (("base", "int"), ("sub", "numpy.int64", ("int", 3))),
+        (("base", "float"), ("sub", "numpy.int64", ("int", 3))),
+        (("list", ("base", "float")), ("list", (("sub", "numpy.float64", ("float", 1.0)), ("sub", "numpy.int64", ("int", 2))))),
+        (("multi", ("base", "int")), ("sub", "numpy.int64", ("int", 5))),
+    ]
 
 
 def run_single(ctx, world, cases):
@@ -574,7 +667,7 @@ Definition spec_conf (c : case_t) : bool :=
   on_ok rc (conformsb live t) && on_ok rs (conformsb live t) && on_ok rf (conformsb live t).
 Definition spec_idem (c : case_t) : bool := let '(t, v, rc, rs, rf, ra) := c in on_ok rc (fun x => res_equiv ra (Ok x)).
 Definition spec_nss_full (c : case_t) : bool :=
-  let '(t, v, rc, rs, rf, ra) := c in on_ok rc (nss no_pairs v) && on_ok rf (nss no_pairs v).
+  let '(t, v, rc, rs, rf, ra) := c in on_ok rc (nss live no_pairs v) && on_ok rf (nss live no_pairs v).
 Definition in_idem_domain (c : case_t) : bool := let '(t, v, rc, rs, rf, ra) := c in union_free t.
 Definition modelled (c : case_t) : bool :=
   let '(t, v, rc, rs, rf, ra) := c in
@@ -783,7 +876,7 @@ def replay(ctx, payload):
         vals = coqio.eval_terms(ctx.scratch, "replay", IMPORTS,
                                 ["coerce live W false %s %s" % (t_coq(t), enc(x)),
                                  "assign live W %s %s" % (t_coq(t), enc(x)),
-                                 "match coerce live W false %s %s with Ok x => (conformsb live %s x, nss no_pairs %s x) | Err _ => (true, true) end"
+                                 "match coerce live W false %s %s with Ok x => (conformsb live %s x, nss live no_pairs %s x) | Err _ => (true, true) end"
                                  % (t_coq(t), enc(x), t_coq(t), enc(x))],
                                 extra=world.coq_fs())
         print("model coerce :", world.collapse(vals[0]))
